@@ -649,6 +649,15 @@ class Roles:
         h = t[0]
         if is_call(t, name="jax.numpy.log") and len(t[2]) == 1:
             return self.of(t[2][0])
+        # a probability table floored / clipped / shifted before it enters the recursion: same axes, but no longer the model's table
+        if is_call(t) and t[1][0] == "name" and t[1][1] in ("jax.numpy.maximum", "jax.numpy.minimum", "jax.numpy.clip") and t[2] and not t[3]:
+            rs = [self.of(x) for x in t[2]]
+            tabs = [(x, r_) for x, r_ in zip(t[2], rs) if r_]
+            others_ok = all(r_ == () or (r_ is None and not any(y in self.atoms for y in subterms(x))) for x, r_ in zip(t[2], rs) if not r_)
+            if len(tabs) == 1 and others_ok:
+                if tabs[0][0] in self.atoms and tabs[0][0][0] == "param":
+                    self.altered = getattr(self, "altered", []) + [t]
+                return tabs[0][1]
         # ---- probability-domain detour: exp(log-quantity - shift), contracted with a probability matrix, then log
         if h == "const" and isinstance(t[1], (int, float)) and not isinstance(t[1], bool):
             return ()
@@ -802,6 +811,14 @@ def hmm_rules(ctx, rule="ROLE-hmm-axes"):
         raise AnalysisError(f"forward_filter: step expression not typable: {short(step, ev, 200)}")
     if r != ("to",):
         problems.append(f"the new filter vector must be indexed by the to-state (found axes {r}): the sum must eliminate the from-state axis")
+    altered_tables = list(dict.fromkeys(getattr(R_, "altered", []) + [x for t_ in (rec["init"],) for x in getattr(Roles(ev, atoms), "altered", [])]))
+    R0_ = Roles(ev, atoms)
+    R0_.of(norm_at(rec["init"]))
+    altered_tables = list(dict.fromkeys(getattr(R_, "altered", []) + getattr(R0_, "altered", [])))
+    if altered_tables:
+        problems.append(f"the recursion runs on an altered probability table ({short(altered_tables[0], ev, 100)}): structural zeros (impossible starts, transitions, emissions) "
+                        "get positive mass, so log marginal and filtering distributions are those of a smoothed model: finite instead of -inf for an impossible sequence, "
+                        "wrong by O(1) for sparse models with adverse data")
     # numerical clause (value-range argument): a log → exp → Σ_from → log round trip is exact only if the shift subtracted before exp is
     # taken per destination (carries the to-state axis): with one global shift, exp(alpha_i − max alpha) underflows to exactly 0 for a
     # state more than ~87 nats (float32) behind the leader; a destination reachable only from such a state (structural zeros in the
